@@ -7,6 +7,10 @@ VERIF = os.path.dirname(os.path.dirname(os.path.abspath(__file__)))
 
 # property id -> (category, technique, level text, level note, design ref)
 TECH = 'Lean 4 theorems on a hand-written model + differential correspondence check + property probe'
+TECH_BR = ('Lean 4 theorems on a hand-written model + the anchored C++ functions translated to Lean from the working tree on every run '
+           '(clang AST -> Lean definitions) with bridge theorems "translated = model" and headline theorems restated on the translated code '
+           '+ differential correspondence check + property probe')
+BRIDGED = {'C01', 'C02', 'C03', 'C06', 'C10', 'C11', 'C12', 'C13', 'C14', 'C15', 'C16', 'C17', 'C18', 'C20'}
 NOTE = 'Trusted: Lean kernel + {propext, Classical.choice, Quot.sound} (audited per theorem on every run); the hand-written model is tied to the C++ by a seeded differential test, not by proof; '
 CLAIMED = {
     'C05': ('proof', TECH,
@@ -82,7 +86,7 @@ CLAIMED = {
             '(characterisation + negative witnesses: the OPEN known finding pinned by the repo\'s tests; any other deviation is a new '
             'violation); dRTdAngles columns; pose covariance = J C J^T with J proved entry by entry (HasDerivAt) to be the Jacobian of the '
             'library\'s own pose map after the repair 67bbb47 (witness theorems against the old Jacobian); PSD preserved; solver covariance = '
-            'variance * A (J^T J)^-1 A^T for diagonal A. 27 theorems in RomeaProofs/Properties/C12.lean. Probe: Richardson finite '
+            'variance * A (J^T J)^-1 A^T for diagonal A, on a fresh AND on a reused solver (for every history the reported covariance depends on the current problem only: Properties/C12Solver.lean). 27 + 9 theorems. Probe: Richardson finite '
             'differences of the implementation\'s own maps.',
             NOTE + 'the angle rows of the Jacobian hold where the normalised output angle is not 0 (the library\'s map jumps 0 <-> 2pi there).',
             'DESIGN.md section 6, C12'),
@@ -94,18 +98,25 @@ CLAIMED = {
             'types, 6 overloads, default/zero/junk-initialised normal sets.',
             NOTE + 'Eigen\'s SelfAdjointEigenSolver and the kd-tree are oracle parameters (contract residual monitored at run time; kd-tree is C08).',
             'DESIGN.md section 6, C09'),
-    'C06': ('other', 'Lean 4 theorems on the control skeleton of RANSAC/ICP + scripted-model differential + envelope probe (partial)',
+    'C06': ('other', 'Lean 4 theorems on the control skeleton of RANSAC/ICP and on the RANSAC sampler with its random engine + scripted-model and bit-exact '
+            'sampler differential + RansacIterations translated from the source with bridge theorems + envelope probe (partial)',
             'PARTIAL. Proved on the model of the control skeleton (geometry enters as oracle outputs): the adaptive iteration bound never '
             'increases and stays below the cap, estimateModel terminates and succeeds iff some counted consensus exceeded the draw size, a '
             'successful rigid-model estimate has a best set larger than the draw and at least twice it with RMSE < sigma and every member '
             'within 3 sigma of the candidate that selected it, the one-to-one filter keeps the closest pair per source with no source '
             'repeated or lost, the ICP flag is true iff the loop broke on the convergence test before the cap; literal thresholds are '
-            'regenerated from the source and pinned. 15 theorems in RomeaProofs/Properties/C06.lean. The headline claim (error <= 0.015 '
-            'over the whole displacement envelope; outliers never win) is NOT a theorem: it is probed on scan2d.txt (lattice + random '
-            'displacements) and on synthetic outlier sets.',
-            'Residue: numerical convergence of the full pipeline, the Mersenne-twister sampler, Eigen. One OPEN known finding: the (+,+,+) '
-            'corner of the envelope does not converge (recorded region tx,ty >= 0.175, theta >= 0.045). Category "other" so the claim is '
-            'not read as a proof of the envelope.',
+            'regenerated from the source and pinned. Proved on the model of the sampler (minstd_rand0 + generate_canonical + '
+            'uniform_real_distribution + drawPoints/updateWeights_, exact integers / reals): the engine state never leaves [1, 2^31-2], every '
+            'variate is in (0,1), cumulative weights are monotone ending at 1, the drawn index is in bounds with positive weight and is drawn '
+            'exactly for u in (cum[i-1], cum[i]], weights stay within [0, initial], drawn TARGET indexes are pairwise distinct while some '
+            'weight is positive (always on the ICP filter\'s one-to-one output), the all-zero collapse (0/0) is characterised, and for every '
+            'scalar type: the engine is never reseeded and fresh objects given the same calls draw the same indexes. 30 theorems in '
+            'RomeaProofs/Properties/C06.lean + bridge theorems for RansacIterations. The headline claim (error <= 0.015 over the whole '
+            'displacement envelope; outliers never win) is NOT a theorem: it is probed on scan2d.txt (lattice + random displacements) and '
+            'on synthetic outlier sets.',
+            'Residue: numerical convergence of the full pipeline, Eigen; the sampler is not yet composed with the skeleton (draw is still an '
+            'oracle of the loop theorems). One OPEN known finding: the (+,+,+) corner of the envelope does not converge (recorded region '
+            'tx,ty >= 0.175, theta >= 0.045). Category "other" so the claim is not read as a proof of the envelope.',
             'DESIGN.md section 6, C06'),
     'C14': ('proof', TECH,
             'Model of RayCasting (setOrigin/setEnd/next/cast, 2D/3D, float/double decision trees) on its own copy of the grid index map. '
@@ -113,27 +124,33 @@ CLAIMED = {
             'face-adjacent (the sentinel never wins while a real crossing remains), every visited cell is crossed by the segment and lies in '
             'the grid, the closed last cell contains the end point (= its own cell off borders); for every scalar type incl. Float: a cast '
             'that specifies its end point is independent of every prior state / op sequence (history independence by induction), and the '
-            'coincident case (0/0 direction, RN) yields the single origin cell. 16 theorems in RomeaProofs/Properties/C14.lean. Bit-exact '
+            'coincident case (0/0 direction, RN) yields the single origin cell. 23 theorems in RomeaProofs/Properties/C14.lean (model of the repaired, count-bounded caster). Bit-exact '
             'differential on cast sequences reusing one caster (incl. exact-tie cases).',
-            NOTE + 'floating-point rounding is outside the real-arithmetic theorems: the probe found, and known_findings.json records as OPEN, '
-            'the ill-conditioned-axis defect (ray parallel to an axis up to a few ulp straddling a cell border: chain overshoots, may leave '
-            'the grid); the Lean Float model reproduces it bit for bit.',
+            NOTE + 'floating-point rounding is outside the real-arithmetic theorems, except the counting theorems (length, face adjacency, in '
+            'bounds, ends in the end cell), which hold for every scalar type incl. Float under the stated hypotheses on <; the former '
+            'ill-conditioned-axis defect (ray parallel to an axis up to a few ulp straddling a cell border) was repaired in /repo (fix: 5c8bf28, '
+            'count-bounded stepping) and is a corpus regression case; the bridge theorems for setOriginPoint/setEndPoint/next carry explicit '
+            'no-wrap hypotheses (the translator\'s integers are unbounded); cast() itself is not translated.',
             'DESIGN.md section 6, C14'),
-    'C19': ('other', 'Lean 4 theorems on lock-discipline semantics + kernel-checked discipline of a lock table regenerated from the clang AST on every run '
-            '+ ThreadSanitizer probe (partial)',
-            'PARTIAL. Proved in Lean for any number of threads and any interleaving: if every plain access of a field happens while the '
-            'accessing thread holds the field\'s guard mutex, then any two accesses of the same field by different threads are separated by '
-            'a release of that mutex by the first and an acquisition by the second (no data race), and nobody else touches a guarded field '
-            'inside a critical section (critical sections are serial); thread-local discipline implies guardedness in every valid '
-            'interleaving; the decidable per-method check `scan` is sound; on the serial semantics a SharedVariable load returns a stored '
-            'value and SharedOptionalVariable hands each stored value to at most one consumer in store order. The model of the code is the '
-            'per-method lock/access event table regenerated from clang\'s AST of the working tree on every run; `table_disciplined` '
-            '(by decide) is re-checked by the kernel on it. Stage C runs the real classes with real threads under ThreadSanitizer with '
-            'consistency checks of the values read (report copies, shared values, consume-once).',
+    'C19': ('other', 'Lean 4 theorems on lock-discipline semantics and on an interleaving semantics (reduction to serial execution / linearizability) + '
+            'kernel-checked discipline and one-critical-section shape of a lock table regenerated from the clang AST on every run + '
+            'ThreadSanitizer probe (partial)',
+            'PARTIAL. Proved in Lean for any number of threads, any schedule, unbounded histories: (1) if every plain access of a field '
+            'happens while the accessing thread holds the field\'s guard mutex, any two accesses of the same field by different threads are '
+            'separated by release -> acquire of that mutex (no data race) and critical sections are serial; the decidable per-method check '
+            'is sound. (2) On an executable interleaving semantics whose values are several words copied one step at a time (so torn values '
+            'are expressible): if every method body is ONE critical section on the class guard containing all its store accesses, every '
+            'reachable state - calls in flight included - equals the serial execution of the calls in guard-acquisition order (program '
+            'order, return values, store); hence Herlihy-Wing linearizability to any sequential object the single calls refine; per class: '
+            'a SharedVariable load is never torn, SharedOptionalVariable hands every stored value to at most one consumer in store order '
+            '(overwritten values dropped), every getReport copy belongs to one evaluation, the online statistics return values of a serial '
+            'order. The model of the code is the per-method lock/access event table regenerated from clang\'s AST (local aliases followed) '
+            'on every run; `table_disciplined`, `table_lin_shaped`, `checkup_getReport_shape` are re-checked on it by the kernel (decide). '
+            '28 theorems. Stage C runs the real classes with real threads under ThreadSanitizer with value-consistency checks.',
             'Residue NOT carried by the theorems: the C++ memory model, std::mutex, compiler reordering, the scheduler - only exercised by '
-            'the TSan probe; tools/gen_locktable.py (AST -> event table) is a trusted translator that errs towards reporting; the theorems '
-            'assume a sequentially consistent interleaving of the summaries\' events. Category "other" so that the claim is not read as a '
-            'proof of the C++.',
+            'the TSan probe; the data flow of the methods is quantified under sequential contracts (witness flows given), not extracted '
+            'from the source; RateMonitoring (atomics outside its mutex) is outside the reduction; tools/gen_locktable.py (AST -> event '
+            'table) is a trusted translator that errs towards reporting. Category "other" so that the claim is not read as a proof of the C++.',
             'DESIGN.md section 6, C19'),
     'C10': ('proof', TECH,
             'Over the reals with every asin/acos/division guard discharged: normalisers return a value congruent mod 2pi inside their interval '
@@ -163,7 +180,7 @@ CLAIMED = {
             'well-formed tree the k-NN search equals the exhaustive scan (tie order included), returns exactly the k smallest squared '
             'distances in ascending order each matching its index; the built tree is well-formed (build_wf) for every non-empty point set, '
             'hence kdtree_correct with no residual hypothesis except no overflow of the sentinel. RomeaProofs/Properties/C08.lean. Tie: the '
-            'tree dumped through the public saveIndex is identical to the model\'s on every generated set, query results identical on '
+            'tree read through nanoflann\'s own typed members is identical to the model\'s on every generated set, query results identical on '
             'exact (dyadic/integer) inputs and within ulps otherwise; probe = exact brute force.',
             NOTE + 'floating-point rounding of distances (pruning bound) is covered by the correspondence check and the brute-force probe only.',
             'DESIGN.md section 6, C08'),
@@ -226,6 +243,8 @@ def main():
         if pid not in CLAIMED:
             continue
         cat, tech, text, note, ref = CLAIMED[pid]
+        if pid in BRIDGED and tech == TECH:
+            tech = TECH_BR
         checks.append({
             'property_id': pid,
             'quick_cmd': 'python3 tools/check.py %s --tier quick' % pid,
